@@ -85,6 +85,6 @@ def judge_search(nat, z, c):
             return (f'zone [{z.cmd()}], local time {y}-{mo}-{d} {h}:{mi}:{s}: search returns valid instants {normals}, the instants showing that local time are {want_n}', {'cmd': cmd, 'kind': 'normals', 'zone': z.__dict__, 'c': c})
         if skipped != want_s:
             return (f'zone [{z.cmd()}], local time {y}-{mo}-{d} {h}:{mi}:{s}: search reports gaps at {skipped}, the gaps containing it are at {want_s}', {'cmd': cmd, 'kind': 'gaps', 'zone': z.__dict__, 'c': c})
-        if order != sorted(order) or len(set(order)) != len(order):
-            return (f'zone [{z.cmd()}]: results not in strictly ascending order: {order}', {'cmd': cmd, 'kind': 'order', 'zone': z.__dict__, 'c': c})
+        if order != sorted(order) or len(set(normals)) != len(normals):
+            return (f'zone [{z.cmd()}]: results not in ascending order / duplicated valid instant: {order}', {'cmd': cmd, 'kind': 'order', 'zone': z.__dict__, 'c': c})
     return None
